@@ -771,3 +771,27 @@ B('pB4_reraise_type_rebuilt_from_text', ['C08'], 'R08.c',
   (E, _RR, _RR_IF + "            exc_type, exc_value, exc_tb = sys.exc_info()\n            raise exc_type(str(exc_value))\n"))
 B('pB4_repl_handler_wraps_the_error', ['C08'], 'R08.c', (E, _REPL, "    def uncaught_to_response(self, **kwargs):\n        raise RuntimeError(repr(kwargs.get('_error')))\n"))
 B('pB4_reraise_helper_called_unconditionally', ['C08'], 'R08.c', (E, _EH_CLS, _reraiser()), (E, _RR, "        reraise_current(*sys.exc_info())\n"))
+
+# ---------------------------------------------------------------------------------------------- match_method asks about the request's own method (R06.d)
+_MM_HEAD = "    def match_method(self, method):\n"
+T('pB4_twin_match_method_upper_local', ['C06'],
+  (R, _MM, "        if method and self.methods:\n            wanted = method.upper()\n            if wanted not in self.methods:\n                return False\n        return True\n"))
+B('pB4_match_method_alias_replaces_request_method', ['C06'], 'R06.d',
+  (R, _MM, "        if method:\n            method = _METHOD_ALIASES.get(method.upper(), method)\n" + _MM),
+  (R, _HM, "_METHOD_ALIASES = {'HEAD': 'GET'}\n" + _HM))
+B('pB4_match_method_head_asked_as_get', ['C06'], 'R06.d', (R, _MM, "        if method and method.upper() == 'HEAD':\n            method = 'GET'\n" + _MM))
+B('pB4_match_method_truncated_request_method', ['C06'], 'R06.d', (R, _MM, "        method = (method or '').strip()[:4]\n" + _MM))
+
+# ---------------------------------------------------------------------------------------------- the canonical form is taken of the request path (R07.a)
+_PARTS = "                        parts = [request.url_root.rstrip('/'), url_quote(norm_path),\n                                 '?', query]\n"
+
+
+def _again(src, quote='url_quote(location_path)'):
+    return ("                        location_path = normalize_path(" + src + ", route.is_branch)\n"
+            "                        parts = [request.url_root.rstrip('/'), " + quote + ",\n                                 '?', query]\n")
+
+
+T('pB4_twin_canonical_path_computed_again', ['C06', 'C07', 'C08'], (A, _PARTS, _again('url_path')))
+B('pB4_canonical_form_of_the_raw_target', ['C07'], 'R07.a', (A, _PARTS, _again("request.environ.get('RAW_URI', url_path).partition('?')[0]", 'location_path')))
+B('pB4_canonical_form_of_the_quoted_path', ['C07'], 'R07.a', (A, _PARTS, _again('url_quote(url_path)', 'location_path')))
+B('pB4_canonical_form_of_the_lowercased_path', ['C07'], 'R07.a', (A, _PARTS, _again('url_path.lower()')))
